@@ -387,8 +387,8 @@ def check_np(case, ctx):
 
 def facets():
     return [
-        Facet("stats", stat_case(), check_stats, quick=160, thorough=16000),
-        Facet("stats_small", stat_case(nfmax=4, ndmax=4), check_stats, quick=120, thorough=8000),
+        Facet("stats", stat_case(), check_stats, quick=240, thorough=16000, qshards=3),
+        Facet("stats_small", stat_case(nfmax=4, ndmax=4), check_stats, quick=160, thorough=8000, qshards=2),
         Enumeration("dispersion", disp_items, check_disp, bounds="f in [0.005,5] Hz x h in [0.01, 2e4] m log lattice"),
         Facet("accessor_dispersion", acc_disp_case(), check_acc_disp, quick=100, thorough=3000),
         Facet("npstats", np_case(), check_np, quick=200, thorough=10000),
